@@ -17,9 +17,11 @@ type runCfg struct {
 	L       lockerCfg `json:"locker"`
 	NT      int       `json:"threads"`
 	Ordered bool      `json:"ordered"`
-	Long    bool      `json:"long,omitempty"`  // generator class long-lists (longlists.go)
-	First   bool      `json:"first,omitempty"` // generator class first-touch (firsttouch.go)
-	Edge    bool      `json:"edge,omitempty"`  // generator class edge-int-keys (edgekeys.go)
+	Long    bool      `json:"long,omitempty"`   // generator class long-lists (longlists.go)
+	First   bool      `json:"first,omitempty"`  // generator class first-touch (firsttouch.go)
+	Edge    bool      `json:"edge,omitempty"`   // generator class edge-int-keys (edgekeys.go)
+	Faults  []faultT  `json:"faults,omitempty"` // generator class fault-key (faults.go)
+	Race    *raceT    `json:"race,omitempty"`   // generator class release-race (faults.go)
 }
 
 type replayT struct {
@@ -400,6 +402,13 @@ func emitCore(e *vh.Env, c runCfg, shard []int, rounds []roundT, note string, cl
 	if note != "" {
 		desc["note"] = note
 	}
+	if len(c.Faults) > 0 {
+		desc["faulted_calls"] = c.Faults
+		desc["faulted_calls_note"] = "each is a Locks (write) / RLocks (not write) of the listed keys with one more key inserted at list position pos whose Hit()/ToBytes() panics; the caller recovers; not a step of the schedule: nothing may stay registered"
+	}
+	if c.Race != nil {
+		desc["release_race"] = c.Race
+	}
 	if failedAt >= 0 {
 		desc["no_model_state_matches_round"] = failedAt
 	}
@@ -425,6 +434,12 @@ func liveAfter(rounds []roundT) int {
 }
 
 func classOf(c runCfg) string {
+	if len(c.Faults) > 0 {
+		return c.L.class() + "/fault-key"
+	}
+	if c.Race != nil {
+		return c.L.class() + "/release-race"
+	}
 	if c.First {
 		return c.L.class() + "/first-touch"
 	}
@@ -447,8 +462,22 @@ func main() {
 			if err := json.Unmarshal([]byte(e.Replay), &rp); err != nil {
 				panic(err)
 			}
+			if rp.Cfg.Race != nil {
+				// racy by nature: the same configuration is raced until a release hangs (bounded)
+				c, lists := raceCfg(rp.Cfg.L.Shards, rp.Cfg.Race.Pairs, rp.Cfg.Race.Long, rp.Cfg.Race.Write, false)
+				for i := 0; ; i++ {
+					l, rs, note := raceOnce(c, lists, e.Rnd.Intn, i > 0)
+					if note != "" || i == 20000 {
+						if note == "" {
+							l, rs, note = raceOnce(c, lists, e.Rnd.Intn, false)
+						}
+						emitRun(e, c, l, rs, note, classOf(c))
+						return
+					}
+				}
+			}
 			l := build(rp.Cfg.L)
-			rounds, note := runSchedule(l, len(rp.Cfg.L.Seeds), replayChooser(rp.Acts), e.Rnd.Intn)
+			rounds, note := runSchedule(l, len(rp.Cfg.L.Seeds), withFaults(l, rp.Cfg.Faults, replayChooser(rp.Acts)), e.Rnd.Intn)
 			emitRun(e, rp.Cfg, l, rounds, note, classOf(rp.Cfg))
 			return
 		}
@@ -524,6 +553,15 @@ func main() {
 			er, em := runEdgeKeys(e, e.Scale(25, 150))
 			rounds += er
 			mismatches += em
+		}
+		if divergent < divergentCap {
+			fr, fm := runFaultKeys(e, e.Scale(30, 150))
+			rounds += fr
+			mismatches += fm
+			rr, rm, hung := runReleaseRace(e, e.Scale(3000, 20000))
+			rounds += rr
+			mismatches += rm
+			e.Meta["release_race_hung"] = hung
 		}
 		e.Meta["deadlocked_runs"] = deadlocked
 		e.Meta["sharded_interface_locker_nil_key"] = probeGrpNil()
